@@ -87,6 +87,7 @@ class Layouts:
         self.structs = {}    # name -> [field names]  (tuple structs: '0','1',..)
         self.variant_fields = {}   # (enum, variant) -> [field names] for struct-like variants
         self.sources = {}    # name -> file it came from
+        self.struct_defs = {}   # name -> [field lists] when several modules define a struct of that name
         self.aliases = {}    # type alias name -> target type text
         self.consts = {}     # (module file stem, NAME) -> literal value (str / int) for simple `const NAME: T = literal;`
 
@@ -146,6 +147,7 @@ class Layouts:
                 if name not in self.enums:
                     self.enums[name] = names; self.sources[name] = path
             else:
+                self.struct_defs.setdefault(name, []).append(names)
                 if name not in self.structs:
                     self.structs[name] = names; self.sources[name] = path
 
